@@ -71,7 +71,7 @@ def run():
     rnd = random.Random(common.seed() + 10)
     opts = [["-greedy"], ["-greedy", "-size"], ["-greedy", "-partition"], ["-greedy", "-no-simplification"],
             ["-greedy", "-storage"], ["-greedy", "-length", "-push0"]]
-    cases = common.gen_cases(n, common.seed(), opts, kinds=["hostile", "hostile", "hostile", "deep", "long", "rule", "splitlong"])
+    cases = common.gen_cases(n, common.seed(), opts, kinds=["hostile", "hostile", "hostile", "deep", "long", "rule", "splitlong", "identity"])
     # blocks of the shipped examples (our own segmentation of the code streams)
     import glob
     shipped = sorted(glob.glob(os.environ.get("GASOL_VERIF_REPO", "/repo") + "/examples/jsons-solc/*.json_solc"), key=os.path.getsize)
@@ -148,7 +148,7 @@ def run():
     cpu = sorted(stats["cpu"])
     pct = lambda p: cpu[min(len(cpu) - 1, int(p * len(cpu)))] if cpu else None
     # (b) CLI runs under several hash seeds
-    docs = [gen.gen_document(rnd, n_contracts=2, kinds=["hostile", "hostile", "rule", "mem", "deep"]) for _ in range(4 if quick else 20)]
+    docs = [gen.gen_document(rnd, n_contracts=2, kinds=["hostile", "hostile", "rule", "mem", "deep", "identity"]) for _ in range(4 if quick else 20)]
     seeds = ["0", "1", "2", "3"]
     jobs = [(d, opts[i % len(opts)], seeds[i % 4]) for i, d in enumerate(docs)]
     res_cli = cli_props.parallel(jobs, lambda d, o, hs: clirun.run_cli(d, o, hashseed=hs, timeout=1200))
@@ -190,7 +190,7 @@ def run():
 def fault_injection(r, rnd, n):
     from monitors import cli_props
     out = {"faults_injected": 0, "faults_contained": 0, "mode_counts": {}}
-    docs = [gen.gen_document(rnd, n_contracts=1, blocks_per_stream=rnd.randrange(3, 6), kinds=["rule", "mem", "grammar"])
+    docs = [gen.gen_document(rnd, n_contracts=1, blocks_per_stream=rnd.randrange(3, 6), kinds=["rule", "mem", "grammar", "identity"])
             for _ in range(n)]
     base = cli_props.parallel([(d, ["-greedy"]) for d in docs], lambda d, o: clirun.run_cli(d, o, timeout=900))
     jobs, meta = [], []
